@@ -235,6 +235,39 @@ pub fn run(out: &mut Out, rng: &mut Rng, thorough: bool) {
             .raw("defaults", &defaults)
             .meas(0, ""),
     );
+    // Debug formatting of every public value type (its text is unspecified; it must return, and say something)
+    {
+        use tlsh::hash::checksum::FuzzyHashChecksum;
+        let m = obs(|| {
+            let mut lens: Vec<usize> = Vec::new();
+            let mut gen = TlshGenerator::new();
+            lens.push(format!("{:?}", gen).len());
+            gen.update(&data);
+            lens.push(format!("{:?}", gen).len());
+            lens.push(format!("{:#?}", gen).len());
+            let fin = gen.finalize_with_options(&options(31));
+            lens.push(format!("{:?}", fin).len());
+            if let Ok(h) = &fin {
+                lens.push(format!("{:?}", h).len());
+                lens.push(format!("{:#?}", h).len());
+                lens.push(format!("{:?}", h.body()).len());
+                lens.push(format!("{:?}", h.checksum()).len());
+                lens.push(format!("{:?}", h.checksum().is_valid()).len());
+                lens.push(format!("{:?}", h.qratios()).len());
+                lens.push(format!("{:?}", h.length()).len());
+                lens.push(format!("{:?}", h.length().range()).len());
+            }
+            lens.push(format!("{:?}", GeneratorOptions::new()).len());
+            lens.push(format!("{:?}", options(31)).len());
+            lens.push(format!("{:?}", tlsh::length::DataLengthValidity::new::<128>(10)).len());
+            lens.push(format!("{:?}", tlsh::length::FuzzyHashLengthEncoding::new(u32::MAX)).len());
+            lens.push(format!("{:?}", tlsh::GeneratorError::TooLargeInput.category()).len());
+            lens.push(format!("{:?}", "T1".parse::<tlsh::Tlsh>()).len());
+            lens
+        });
+        let lens = m.v.clone().unwrap_or_default();
+        out.emit(Ev::new("dbg").raw("lens", &format!("{:?}", lens)).meas(0, &m.p));
+    }
     // equality laws on hash values
     for v in VARIANTS.iter() {
         for i in 0..(if thorough { 200 } else { 30 }) {
